@@ -142,8 +142,8 @@ theorem stepBasic_shift (reg : Reg) (c : Int) (st : TState) (op : Op) :
         cases checkSeries false inp with
         | error e => rfl
         | ok z =>
-          simp only [Except.map, hampel_shift]
-          cases hampel cfg z <;> rfl
+          simp only [Except.map, hampelOut_shift]
+          cases hampelOut cfg z <;> rfl
     | inverse inp g => rfl
     | fitTransform inp d g => rfl
   | pass p i h flag ft ihp ihi =>
